@@ -30,6 +30,8 @@ TS = "porepy/numerics/time_step_control.py"
 
 MUTANTS = {
     "C38": [
+        {"name": "pvd_continues_stale_file_of_earlier_run", "file": EX, "only": "exporter",
+         "old": "        if file_exists and append:\n", "new": "        if file_exists:\n"},
         {"name": "revert_cell_type_regrouping", "file": EX, "old": "                    ordered_value[cell_ids] = value\n", "new": "                    ordered_value[:] = value\n"},
         {"name": "time_step_counter_off_by_one", "file": DS, "old": "        self.exporter._time_step_counter = time_index\n\n    def load_data_from_pvd", "new": "        self.exporter._time_step_counter = time_index + 1\n\n    def load_data_from_pvd"},
         {"name": "restored_time_one_entry_early", "file": TS, "old": "        self.time = self.exported_times[time_index]\n", "new": "        self.time = self.exported_times[time_index - 1]\n"},
